@@ -34,8 +34,8 @@ NO_SHRINK = ("parser/opts", "parser/opts/*", "world/dirs", "world/cwd")
 SHRINK_DICTS = ("world/files", "world/env", "world/symlinks", "ops/*/obj", "ops/*/env")
 
 CYCLIC = ["&a [*a]", "&x {k: *x}", "&a [1, [2, *a]]"]
-BADV = ["[1", "{", '{"a":', "*nope", "!!python/object:os.system x", "\x00", "a\x00b", "", " ", "null", "~", "-", "1e999", "{1: 2}", "? [1,2] : 3", "\t", "\u00e9", "0x1F", "yes", "--", "-1", "=", "a=b=c", "{{}}", "[[[[[[[[[[]]]]]]]]]]", "!!binary abc", "--- a\n--- b", "key: [unclosed", "- 1\n- 2", "{a: 1, a: 2}", "!!set {1, 2}", "!!python/tuple [1]", ".inf", "1:30", "2001-01-01", "<<: {a: 1}"] + CYCLIC
-CLASSP = ["Sub1", "Base", "dsim.simtypes.Sub2", "dsim.simtypes.Sub1"]
+BADV = ["1.e", "-.e1", "1e-", "[1", "{", '{"a":', "*nope", "!!python/object:os.system x", "\x00", "a\x00b", "", " ", "null", "~", "-", "1e999", "{1: 2}", "? [1,2] : 3", "\t", "\u00e9", "0x1F", "yes", "--", "-1", "=", "a=b=c", "{{}}", "[[[[[[[[[[]]]]]]]]]]", "!!binary abc", "--- a\n--- b", "key: [unclosed", "- 1\n- 2", "{a: 1, a: 2}", "!!set {1, 2}", "!!python/tuple [1]", ".inf", "1:30", "2001-01-01", "<<: {a: 1}"] + CYCLIC
+CLASSP = ["Sub1", "Base", "dsim.simtypes.Sub2", "dsim.simtypes.Sub1", "Sub3", "dsim.simtypes.Sub3"]
 BADCLASSP = ["calendar.NoSuch", "os.path", "dsim.simtypes.Unrelated", "dsim.simtypes.AbstractBase", "no.such.module.X", "Sub1.", ".Sub1", "1bad.path", "dsim.simtypes", "dsim.simtypes.double", "dsim.simtypes.D", "json", "builtins.int", "Sub3", "calendar.Calendar", ""]
 BADSPEC = [
     {"class_path": 3},
@@ -50,7 +50,9 @@ BADSPEC = [
     {"class_path": ["Sub1"]},
     {"class_path": "dsim.simtypes.Sub2", "init_args": {"path": "nofile"}},
     [],
+    {},
     {"class_path": "Sub1", "init_args": None, "extra": 1},
+    {"class_path": "Sub3", "init_args": {"opts": {"a": 1}}},
 ]
 GOODSPEC = [{"class_path": "dsim.simtypes.Sub1", "init_args": {"n": 2}}, {"class_path": "Base"}, {"class_path": "dsim.simtypes.Sub1", "init_args": {"child": {"class_path": "Base", "init_args": {"tags": [2]}}}}]
 
@@ -70,7 +72,7 @@ F = {
     "any": {"decl": {"type": "any", "default": None}, "good": [1, "x", {"q": [1]}, [1, {"z": 2}]], "bad": [], "anyval": True},
     "lany": {"decl": {"type": "list_any", "default": []}, "good": [[1, "x"]], "bad": [3], "anyval": True, "append": True},
     "dany": {"decl": {"type": "dict_any", "default": {}}, "good": [{"k": [1]}], "bad": [3], "anyval": True, "sub": ["k", "k.j"]},
-    "u": {"decl": {"type": "union_int_list", "default": 0}, "good": [1, [1, 2]], "bad": ["x", {"a": 1}]},
+    "u": {"decl": {"type": "union_int_list", "default": 0}, "good": [1, [1, 2]], "bad": ["x", {"a": 1}], "append": True},
     "dd": {"decl": {"type": "opt_D", "default": None}, "good": [{"u": 2}, {"u": 3, "w": [1.5]}], "bad": [{"u": "x"}, {"zz": 1}, 3, [1]], "sub": ["u", "w", "zz", "u.v"]},
     "base": {"decl": {"type": "opt_base", "default": None}, "good": GOODSPEC + CLASSP, "bad": BADSPEC + BADCLASSP, "sub": ["n", "tags", "child", "child.n", "init_args.n", "class_path", "zz", "help", "n.x", "opts.a", "dict_kwargs.q"], "cls": True},
     "abs": {"decl": {"type": "opt_abstract", "default": None}, "good": ["dsim.simtypes.Concrete"], "bad": BADCLASSP + BADSPEC[:4], "sub": ["z", "help"], "cls": True},
@@ -220,6 +222,8 @@ def gen_argv(rng, feats, all_feats, spec_feats):
                 argv += [name, v]
             else:
                 argv.append(name)
+    if "base" in feats and rng.random() < 0.15:
+        argv += rng.choice([["--base=Sub1", '--base.opts={"a": 1}', "--base=Sub3"], ["--base=Sub3", "--base.opts=2", "--base=Sub1"], ["--base=Sub1", "--base.child=Sub3", "--base.child.opts=x"], ["--base=Sub1", "--base.n=1", "--base=dsim.simtypes.Sub2", "--base.path=" + rng.choice(PATH_STATES)]])
     if "sub" in spec_feats and rng.random() < 0.7:
         argv += rng.choice([["fit", "--lr=0.3"], ["fit", "--lr=x"], ["fit"], ["test", "nm"], ["test"], ["bogus"], ["fit", "--cfg", rng.choice(PATH_STATES)], ["fit", "--zz"], ["test", "nm", "extra"], ["fit", "--lr"], ["fit", "--model=Model", "--model.base=" + rng.choice(CLASSP + BADCLASSP)], ["fit", "--help"], ["fit", "--print_config"]])
     if "pos" in spec_feats and rng.random() < 0.6:
@@ -270,7 +274,7 @@ def generate(rng, tier):
     all_feats = list(F)
     feats = rng.sample(all_feats, rng.randint(3, 8))
     spec_feats = set(feats)
-    for x, pr in (("cfg", 0.7), ("inner", 0.35), ("sub", 0.3), ("pos", 0.12)):
+    for x, pr in (("cfg", 0.7), ("inner", 0.35), ("sub", 0.3), ("pos", 0.12), ("link", 0.5 if "a" in feats else 0.0)):
         if rng.random() < pr:
             spec_feats.add(x)
     if "pos" in spec_feats and "sub" in spec_feats:
@@ -283,6 +287,9 @@ def generate(rng, tier):
         args.append(dict({"k": "arg", "name": f}, **F[f]["decl"]))
     if "inner" in spec_feats:
         args.append({"k": "inner", "name": "inner", "spec": {"opts": {"exit_on_error": eoe}, "args": [{"k": "arg", "name": "q", "type": "int", "default": 0}, {"k": "arg", "name": "p", "type": "opt_path_fr", "default": None}, {"k": "arg", "name": "b", "type": "opt_base", "default": None}]}})
+    if "link" in spec_feats:
+        args.append({"k": "class", "cls": "Model", "name": "model"})
+        args.append({"k": "link", "src": "a", "dst": "model.width", "fn": "double"})
     if "pos" in spec_feats:
         args.append({"k": "arg", "name": "pos", "type": "str", "positional": True})
     if "sub" in spec_feats:
@@ -406,6 +413,14 @@ def do_op(p, op):
     raise ValueError(k)
 
 
+def _is_json(v):
+    try:
+        json.loads(v)
+        return True
+    except ValueError:
+        return False
+
+
 def _has_cyclic(op, sc):
     txt = json.dumps(op)
     if any(c in txt for c in ("&a", "&x", "&r", "&b", "cyclic")):
@@ -464,6 +479,8 @@ def execute(sc, ctx):
             sim.probe("subclass-bad-import")
         if "innerbad.yaml" in txt or ("inner" in txt and "fault.yaml" in txt):
             sim.probe("nested-subconfig-fault")
+        if kind == "env" and any(k in ("APP_N", "APP_L", "APP_LL", "APP_LANY", "APP_LB", "APP_PL") and v.lstrip().startswith(("[", "{")) and not _is_json(v) for k, v in op["env"].items()):
+            sim.probe("env-list-broken-json")
         cyc = _has_cyclic(op, sc)
         if cyc:
             sim.probe("cyclic-alias")
@@ -525,4 +542,4 @@ def execute(sc, ctx):
                 os.chdir(cwd0)
         if hung:
             break
-    ctx.notes["feats"] = sorted(set(sc["parser"]["spec_feats"]) & {"cfg", "inner", "sub", "pos"})
+    ctx.notes["feats"] = sorted(set(sc["parser"]["spec_feats"]) & {"cfg", "inner", "sub", "pos", "link"})
